@@ -384,6 +384,8 @@ func (p *AmazonCognitoProvider) ValidateGroupMembership(email string, allowedGro
 		if err != nil {
 			return nil, err
 		}
+		// the directory's answer replaces what was collected from the (partial, possibly stale) cache
+		matchingGroups = []string{}
 
 		for _, allowedGroup := range allowedGroups {
 			for _, group := range groupMembership {
